@@ -836,13 +836,13 @@ def _design(thorough):
     ex = cf.ThreadPoolExecutor(max_workers=5)
     w = 6
     futs = {
-        "small": ex.submit(lib.tlc_design, "TokLegacyMC", "TokLegacy_small.cfg", workers=w, tag="s"),
-        "nopremise": ex.submit(lib.tlc_expect_violation, "TokLegacyMC", "TokLegacy_nopremise.cfg", "RoundTripNoPremise", workers=2, tag="np"),
-        "ds": ex.submit(lib.tlc_design, "TokLegacyMC", "TokLegacy_ds.cfg", workers=2, tag="ds"),
-        "ds_broken": ex.submit(lib.tlc_expect_violation, "TokLegacyMC", "TokLegacy_ds_broken.cfg", "DSAccepted", workers=2, tag="dsb"),
+        "small": ex.submit(lib.tlc_design, "TokLegacyMC", "TokLegacy_small.cfg", workers=w, tag="s", xmx="2g"),
+        "nopremise": ex.submit(lib.tlc_expect_violation, "TokLegacyMC", "TokLegacy_nopremise.cfg", "RoundTripNoPremise", workers=2, tag="np", xmx="1g"),
+        "ds": ex.submit(lib.tlc_design, "TokLegacyMC", "TokLegacy_ds.cfg", workers=2, tag="ds", xmx="1g"),
+        "ds_broken": ex.submit(lib.tlc_expect_violation, "TokLegacyMC", "TokLegacy_ds_broken.cfg", "DSAccepted", workers=2, tag="dsb", xmx="1g"),
     }
     if thorough:
-        futs["2x3"] = ex.submit(lib.tlc_design, "TokLegacyMC", "TokLegacy_2x3.cfg", workers=w, tag="23")
+        futs["2x3"] = ex.submit(lib.tlc_design, "TokLegacyMC", "TokLegacy_2x3.cfg", workers=w, tag="23", xmx="2g")
     return ex, futs
 
 
